@@ -22,7 +22,7 @@ ASSUMPTIONS = ['tm_exact and geod_exact oracles (self-validated each shard)',
                'bearing tolerance 1e-8 deg + 1 mm at the far end (the statement gives none for bearings; DESIGN.md section 5)']
 N = {'quick': 400, 'thorough': 6000}
 SHARDS = {'quick': 16, 'thorough': 32}
-REQUIRED_COUNTERS = ['tuned_predecessor_sequences', 'other_hemisphere_sequences', 'other_ellipsoid_sequences', 'inverse_closure', 'bearing2_judged', 'direct_judged', 'lsf_judged', 'adjacent_zone_cases', 'northern_cases']
+REQUIRED_COUNTERS = ['same_figures_in_neighbouring_zones', 'tuned_predecessor_sequences', 'other_hemisphere_sequences', 'other_ellipsoid_sequences', 'inverse_closure', 'bearing2_judged', 'direct_judged', 'lsf_judged', 'adjacent_zone_cases', 'northern_cases']
 K0, FE, FN = 0.9996, 500000.0, 10000000.0
 BUDGET = 60
 
@@ -52,6 +52,29 @@ def from_grid(zone, e, n, south, a, invf):
 def gen_case(rnd):
     ell = rnd.choice(['grs80'] * 6 + ['wgs84', 'ans', 'intl24', [6378200.0, 299.5]])
     a, invf = tmwork.ell_published(ell)
+    if rnd.random() < 0.04:
+        # the same easting and northing figures in two neighbouring zones (far enough north for the two points to be less
+        # than 100 km apart): two different ground points whose numbers coincide
+        for _ in range(50):
+            zone1 = rnd.randint(2, 59)
+            zone2 = zone1 + rnd.choice([1, -1])
+            E = round(rnd.uniform(400000.0, 600000.0), rnd.choice([0, 3]))
+            lat = rnd.uniform(81.6, 83.8)
+            _, N, _, _ = to_grid(lat, cm_of(zone1) + math.degrees((E - FE) / K0 / max(geod.axis_distance(lat, a, invf), 1.0)), zone1, a, invf)
+            N = round(N, rnd.choice([0, 3]))
+            la1, lo1, _, _ = from_grid(zone1, E, N, False, a, invf)
+            la2, lo2, _, _ = from_grid(zone2, E, N, False, a, invf)
+            L = geod.chord(la1, lo1, la2, lo2, a, invf)
+            if not (1.0 <= L <= 99000.0 and -180.0 <= lo1 <= 180.0 and -180.0 <= lo2 <= 180.0 and la1 < 83.9 and la2 < 83.9):
+                continue
+            N2 = N
+            if rnd.random() < 0.3 and L < 95000.0:
+                N2 = round(N + rnd.choice([1, -1]) * rnd.uniform(1.0, 3000.0), 3)       # only the eastings coincide
+                la2, lo2, _, _ = from_grid(zone2, E, N2, False, a, invf)
+                if la2 >= 83.9:
+                    continue
+            return {'ell': ell, 'zone1': zone1, 'east1': E, 'north1': N, 'zone2': zone2, 'east2': E, 'north2': N2, 'hemi': 'north',
+                    'az': 90.0 if zone2 > zone1 else 270.0, 'length': L, 'same_figures': True}
     for _ in range(200):
         zone1 = rnd.randint(1, 60)
         south = rnd.random() < 0.5
@@ -177,6 +200,8 @@ def judge(ns, ctx, case, linesf_mon=None):
         ctx.count('not_judged:points_closer_than_half_a_metre')
         return
     ctx.judged()
+    if case.get('same_figures'):
+        ctx.count('same_figures_in_neighbouring_zones')
     ctx.count('adjacent_zone_cases' if z1 != z2 else 'same_zone_cases')
     ctx.count('southern_cases' if south else 'northern_cases')
     try:
